@@ -10,7 +10,7 @@ program compiled; both get the dynamic facts; every query is enumerated on both.
 both worlds.  All four answer sequences must be equal; a raised exception must reach the consumer as the same object after
 exactly the answers the model delivers before its error."""
 import sys
-from lib import progs, ast_io, terms, semcheck
+from lib import progs, ast_io, terms, semcheck, consumers
 from lib.terms import g_str, g_list, g_nat, g_term, g_bool
 from lib.progs import V, A, F
 
@@ -112,21 +112,27 @@ def rest_clauses(case):
 
 # ------------------------------------------------------------------ implementation side
 
-def _mk_inferred(k, body):
-    if k == 0:
-        def f(): return body(())
-    elif k == 1:
-        def f(a): return body((a,))
-    elif k == 2:
-        def f(a, b): return body((a, b))
-    elif k == 3:
-        def f(a, b, c): return body((a, b, c))
-    else:
-        def f(a, b, c, d): return body((a, b, c, d))
-    return f
+FORMS = ['arrays', 'nested', 'requery', 'bounded', 'asserting']
+_HIDDEN = [0]
+
+def pick_kind(rng, style):
+    """the kind of callable that is registered (lib/consumers.make_callable); with inferred arity only kinds whose signature has
+    exactly the predicate's parameters"""
+    if style == 'inferred':
+        return rng.choice(consumers.KINDS_FIXED)
+    if style == 'explicit':
+        return rng.choice(consumers.KINDS_FIXED + consumers.KINDS_EXPLICIT_ONLY + ['star:' + k for k in consumers.KINDS_STAR])
+    return rng.choice(consumers.KINDS_STAR + ['kwonly'])
+
+def expected_key(spec):
+    """the key under which register_function stores the predicate (documented: name_<number of parameters> / name_<arity> / name_n)"""
+    return '%s_n' % spec['name'] if spec['style'] == 'variadic' else '%s_%d' % (spec['name'], spec['arity'])
 
 def make_native(yp, E, spec, rows, exc_obj, log):
-    """the Python predicate: for row in rows: for _ in unify_arrays(args, row): yield v"""
+    """the Python predicate: for row in rows: for _ in unify_arrays(args, row): yield v  - or (forms requery / bounded) the same
+    rows kept as facts of a hidden dynamic predicate of the SAME engine, which the predicate queries while it is being solved
+    (re-entrant: inside its loop, resp. up front through yp.evaluate_bounded), or (asserting) asserting into a scratch predicate
+    of the engine inside its loop"""
     def build(t, fresh):
         k = t[0]
         if k == 'a': return yp.atom(t[1])
@@ -144,27 +150,56 @@ def make_native(yp, E, spec, rows, exc_obj, log):
             yield from nested(args, vals, i + 1)
     def value(i):
         return yield_value(spec['yield'], i)
-    def body(args):
-        log.append([spec['name'], len(args), [type(a).__name__ for a in args]])
-        count = 0
+    form = spec['form']
+    hidden = None
+    if form in ('requery', 'bounded'):
+        _HIDDEN[0] += 1
+        hidden = '%s__rows%d' % (spec['name'], _HIDDEN[0])
+        for i, (ts, nv) in enumerate(rows):
+            fresh = {}
+            yp.assert_fact(yp.atom(hidden), [i] + [build(t, fresh) for t in ts])
+    def answers(args):
+        """(row number, iterator over the solutions of args = row)"""
+        if form == 'requery':
+            I = yp.variable()
+            for _ in yp.query(hidden, [I] + list(args)):
+                yield E.get_value(I)
+            return
+        if form == 'bounded':
+            I = yp.variable()
+            vs = [yp.variable() for _ in args]
+            snap = yp.evaluate_bounded(yp.query(hidden, [I] + vs), lambda _: (E.get_value(I), [E.get_value(v) for v in vs]),
+                                       recursion_limit=max(sys.getrecursionlimit(), 1000) + 300)
+            for i, vals in snap:
+                for _ in E.unify_arrays(list(args), vals):
+                    yield i
+            return
         for i, (ts, nv) in enumerate(rows):
             fresh = {}
             vals = [build(t, fresh) for t in ts]
-            if spec['form'] == 'arrays':
+            if form in ('arrays', 'asserting'):
                 it = E.unify_arrays(list(args), vals)
             elif len(args) != len(vals):
                 continue
             else:
                 it = nested(list(args), vals, 0)
             for _ in it:
-                if spec.get('raise') is not None and count == spec['raise']:
-                    raise exc_obj
-                count += 1
-                yield value(i)
+                if form == 'asserting':
+                    yp.assert_fact(yp.atom(spec['name'] + '__seen'), [yp.atom('x'), len(args)])
+                yield i
+    def body(args):
+        log.append([spec['name'], len(args), [type(a).__name__ for a in args]])
+        count = 0
+        for i in answers(args):
+            if spec.get('raise') is not None and count == spec['raise']:
+                raise exc_obj
+            count += 1
+            yield value(i)
+    kind = spec.get('kind') or 'def'
     if spec['style'] == 'inferred':
-        return _mk_inferred(spec['arity'], body), None
-    def f(*args):
-        return body(args)
+        return consumers.make_callable(kind, spec['arity'], body), None
+    star = kind.startswith('star:') or spec['style'] == 'variadic'
+    f = consumers.make_callable(kind.split(':')[-1], spec['arity'], body, star=star)
     return f, (spec['arity'] if spec['style'] == 'explicit' else -1)
 
 def build_fact(yp, ts):
@@ -225,9 +260,29 @@ def run_queries(yp, E, case, exc_obj):
             x.__traceback__ = None
         leftover = [i for i in range(nq) if T.vars[i]._is_bound]
         leaked = sum(1 for v in list(W) if v._is_bound and id(v) not in before) if W is not None else 0
-        out.append({'answers': semcheck.canon_answers(answers), 'values': values, 'truth': truth, 'count': n, 'end': end, 'same': same,
-                    'leftover': leftover, 'leaked': leaked, 'findall_inner': bool(getattr(yp, '_verif_findall_inner', False))})
+        o = {'answers': semcheck.canon_answers(answers), 'values': values, 'truth': truth, 'count': n, 'end': end, 'same': same,
+             'leftover': leftover, 'leaked': leaked, 'findall_inner': bool(getattr(yp, '_verif_findall_inner', False))}
+        # the same query behind the other consumer APIs (evaluate_bounded, list(), next()+close()): lib/consumers.py
+        o['cons'] = None
+        if consumers.wanted(o) and not any(s.get('raise') is not None for s in case['native']):
+            o['reclimit'] = sys.getrecursionlimit()
+            o['cons'] = consumers.other_consumers(yp, q[0], args, nq, len(out) + len(case['queries']) + len(case['native']), LIMIT)
+        out.append(o)
     return out
+
+def consumer_oracle(t, a, what):
+    if a.get('cons'):
+        r = consumers.mismatch(a, a['cons'], LIMIT)
+        if r:
+            return '%s (%s): %s' % (t, what, r)
+    return None
+
+def keys_oracle(case, io):
+    """register_function stores the predicate under name_<number of parameters> (inferred), name_<arity> (explicit), name_n (variadic)"""
+    for spec in case['native']:
+        if expected_key(spec) not in io.get('keys', []) and spec.get('registered', True):
+            return 'Python predicate %s/%d (%s arity, a %s): no key %s in the engine, its keys are %s' % (spec['name'], spec['arity'], spec['style'], spec.get('kind') or 'def', expected_key(spec), io.get('keys'))
+    return None
 
 def impl(case):
     if case.get('kind') == 'mixed':
@@ -239,6 +294,10 @@ def impl(case):
     facts = fact_preds(num)
     for which in ('B', 'A'):
         cl = case['clauses'] if which == 'B' else rest_clauses(case)
+        tw = case.get('twins') or []
+        if which == 'A' and tw:
+            # some cut-free conjunctive RULES are written in Python too: re-entrant twins that query the same engine inside their loops
+            cl = [c for c in cl if [c[0], len(c[1])] not in [t[:2] for t in tw]]
         yp = E.YP()
         semcheck.watch_findall(yp)       # notices findall results that collect variables created while the goal ran (see semcheck)
         if cl:
@@ -250,6 +309,9 @@ def impl(case):
             yp.load_script_from_string(text)
         for name, ts in case['dyn']:
             yp.assert_fact(yp.atom(name), build_fact(yp, ts))
+        if which == 'A':
+            for name, ar, style in tw:
+                yp.register_function(name, consumers.python_twin(yp, E, case['clauses'], (name, ar), style), arity=ar)
         log = []
         def register(i, decoy=False):
             spec = case['native'][i]
@@ -451,6 +513,9 @@ def oracle(case, io):
         for x, what in ((a, 'Python-predicate engine'), (b, 'compiled engine')):
             if x['leftover'] or x['leaked']:
                 return 'query %s (%s): variables still bound after the enumeration ended (%s)' % (t, what, x['end'])
+            r = consumer_oracle('query ' + t, x, what)
+            if r:
+                return r
         if b['end'].startswith('raised') and b['end'] != 'raised RecursionError':
             return 'query %s: the all-compiled engine %s' % (t, b['end'])
         if a['end'].startswith('raised') and a['end'] != 'raised RecursionError':
@@ -464,10 +529,13 @@ def oracle(case, io):
     for q, a in zip(case['queries'], io.get('A0') or []):
         if a['leftover'] or a['leaked']:
             return 'query %s (first round): variables still bound after the enumeration ended (%s)' % (qtext(q), a['end'])
+        r = consumer_oracle('query ' + qtext(q), a, 'first round')
+        if r:
+            return r
     bad = [x for x in io.get('argtypes', []) if x not in ('Atom', 'Variable', 'Functor', 'int', 'str')]
     if bad:
         return 'a Python predicate received arguments that are not engine terms: %s' % bad
-    return None
+    return keys_oracle(case, io)
 
 # ------------------------------------------------------------------ generation
 
@@ -576,9 +644,20 @@ def dyn_terms(dyn):
         out.append([name, ts])
     return out
 
+def pick_twins(rng, clauses, extra_defined, exclude):
+    keys = []
+    for c in clauses:
+        k = (c[0], len(c[1]))
+        if k not in keys:
+            keys.append(k)
+    defined = set(keys) | set(extra_defined)
+    elig = [k for k in keys if k not in exclude and any(c[2] != ['true'] for c in clauses if (c[0], len(c[1])) == k) and consumers.twin_eligible(clauses, k, defined)]
+    return [[k[0], k[1], rng.choice([0, 1, 2, 2])] for k in elig if rng.random() < 0.6]
+
 def native_spec(rng, name, ar, raise_=None):
-    return {'name': name, 'arity': ar, 'style': rng.choice(['inferred', 'explicit', 'variadic']),
-            'yield': rng.choice(['false', 'true', 'mixed']), 'form': rng.choice(['arrays', 'nested']), 'raise': raise_}
+    style = rng.choice(['inferred', 'explicit', 'variadic'])
+    return {'name': name, 'arity': ar, 'style': style, 'kind': pick_kind(rng, style),
+            'yield': rng.choice(['false', 'true', 'mixed']), 'form': rng.choice(FORMS), 'raise': raise_}
 
 # ------------------------------------------------------------------ one predicate defined from MIXED SOURCES
 #
@@ -622,13 +701,18 @@ def impl_mixed(case):
         log = []
         for n, op in enumerate(ops):
             if op[0] == 'load':
-                if op[1]:
-                    src = ast_io.program_text(op[1])
+                tw = [t for t in (case.get('twins') or []) if which == 'A' and any([c[0], len(c[1])] == t[:2] for c in op[1])]
+                cl = [c for c in op[1] if [c[0], len(c[1])] not in [t[:2] for t in tw]]
+                if cl:
+                    src = ast_io.program_text(cl)
                     try:
                         text = compiler.compile_prolog_from_string(src, semcheck.Ctx)
                     except Exception as e:
                         return {'rejected': type(e).__name__, 'msg': str(e)[:200], 'source': src}
                     yp.load_script_from_string(text, overwrite=bool(op[2]))
+                for name, ar, style in tw:
+                    # rules of this script written in Python: re-entrant twins (their keys are defined by this script only)
+                    yp.register_function(name, consumers.python_twin(yp, E, op[1], (name, ar), style), arity=ar)
             elif op[0] == 'reg':
                 spec = case['native'][op[1]]
                 if which == 'B':
@@ -728,6 +812,9 @@ def oracle_mixed(case, io):
             for x, what in ((a, 'Python-predicate engine'), (b, 'all-compiled twin')):
                 if x['leftover'] or x['leaked']:
                     return '%s (%s): variables still bound after the enumeration ended (%s)' % (t, what, x['end'])
+                r = consumer_oracle(t, x, what)
+                if r:
+                    return r
             if b['end'].startswith('raised') and b['end'] != 'raised RecursionError':
                 return '%s: the all-compiled twin %s' % (t, b['end'])
             if a['end'].startswith('raised') and a['end'] != 'raised RecursionError':
@@ -741,7 +828,7 @@ def oracle_mixed(case, io):
     bad = [x for x in io.get('argtypes', []) if x not in ('Atom', 'Variable', 'Functor', 'int', 'str')]
     if bad:
         return 'a Python predicate received arguments that are not engine terms: %s' % bad
-    return None
+    return keys_oracle(case, io)
 
 def mixed_rows(rng, ar, lo, hi):
     rows = []
@@ -791,8 +878,9 @@ def gen_mixed(rng):
     for _ in range(rng.randrange(2, 6)):
         r = rng.random()
         if r < 0.4:
-            spec = {'name': name, 'arity': ar, 'style': rng.choice(['inferred', 'explicit', 'inferred', 'explicit', 'variadic']),
-                    'yield': rng.choice(YIELDS), 'form': rng.choice(['arrays', 'nested']), 'raise': None,
+            style = rng.choice(['inferred', 'explicit', 'inferred', 'explicit', 'variadic'])
+            spec = {'name': name, 'arity': ar, 'style': style, 'kind': pick_kind(rng, style),
+                    'yield': rng.choice(YIELDS), 'form': rng.choice(FORMS), 'raise': None,
                     'rows': mixed_rows(rng, ar, 0 if rng.random() < 0.1 else 1, 3 if ar else 2)}
             if raiser and spec['rows']:
                 raiser -= 1
@@ -809,8 +897,9 @@ def gen_mixed(rng):
             for row in mixed_rows(rng, ar, 1, 2):
                 ops.append(['assert', name, row])
     if not native:
-        spec = {'name': name, 'arity': ar, 'style': rng.choice(['inferred', 'explicit']), 'yield': rng.choice(YIELDS),
-                'form': rng.choice(['arrays', 'nested']), 'raise': None, 'rows': mixed_rows(rng, ar, 1, 3 if ar else 2)}
+        style = rng.choice(['inferred', 'explicit'])
+        spec = {'name': name, 'arity': ar, 'style': style, 'kind': pick_kind(rng, style), 'yield': rng.choice(YIELDS),
+                'form': rng.choice(FORMS), 'raise': None, 'rows': mixed_rows(rng, ar, 1, 3 if ar else 2)}
         native.append(spec)
         ops.insert(rng.randrange(0, len(ops) + 1), ['reg', 0])
     ops.insert(rng.randrange(0, len(ops) + 1) if rng.random() < 0.5 else 0, ['load', rules, rng.random() < 0.5])
@@ -823,7 +912,12 @@ def gen_mixed(rng):
     rounds = [len(ops)]
     if len(ops) > 1 and rng.random() < 0.35:
         rounds = [rng.randrange(1, len(ops)), len(ops)]
-    return {'kind': 'mixed', 'ops': ops, 'native': native, 'queries': queries, 'rounds': rounds, 'clauses': [], 'dyn': []}
+    case = {'kind': 'mixed', 'ops': ops, 'native': native, 'queries': queries, 'rounds': rounds, 'clauses': [], 'dyn': []}
+    if rng.random() < 0.5:
+        # keys that only the rules' script defines (never m itself, whose definition comes from several sources)
+        elsewhere = {(c[0], len(c[1])) for op in ops if op[0] == 'load' and op[1] is not rules for c in op[1]} | {(name, ar)}
+        case['twins'] = pick_twins(rng, rules, {(name, ar)}, elsewhere)
+    return case
 
 def mixed_corpus():
     """every order of {register_function, load overwrite=False, load overwrite=True, assert_fact} of length 2 and 3 for one key,
@@ -876,6 +970,8 @@ def gen(rng, tier):
                 subsets.append(s)
         for s in subsets:
             c = {'clauses': clauses, 'queries': queries, 'dyn': dt, 'native': [native_spec(rng, k[0], k[1]) for k in s]}
+            if rng.random() < 0.4:
+                c['twins'] = pick_twins(rng, clauses, {(d[0], len(d[1])) for d in dt}, set())
             if rng.random() < 0.45:
                 # queries are also asked before all Python predicates are registered (none, or some of them)
                 c['pre'] = [i for i in range(len(s)) if rng.random() < 0.35]
@@ -951,6 +1047,21 @@ def builtin_corpus():
                 L.append({'clauses': prog2, 'queries': queries2, 'dyn': dyn0 if k % 5 == 0 else [],
                           'native': [{'name': name, 'arity': ar, 'style': ['inferred', 'explicit', 'variadic'][k % 3], 'yield': ['false', 'true', 'mixed'][k % 3],
                                       'form': ['arrays', 'nested'][k % 2], 'raise': j, 'exc': cls}]})
+    # round 4: every kind of callable x every registration style that fits it, for q/1, e/2 and both (forms and yields cycle), with
+    # the conjunctive rules t1 / t8 written in Python too in every other case
+    k = 0
+    combos = [('inferred', kd) for kd in consumers.KINDS_FIXED] + \
+             [('explicit', kd) for kd in consumers.KINDS_FIXED + consumers.KINDS_EXPLICIT_ONLY + ['star:' + x for x in consumers.KINDS_STAR]] + \
+             [('variadic', kd) for kd in consumers.KINDS_STAR + ['kwonly']]
+    for style, kd in combos:
+        for sub in ([('q', 1)], [('e', 2)], [('q', 1), ('e', 2)]):
+            k += 1
+            c = {'clauses': prog, 'queries': queries, 'dyn': dyn0 if k % 4 == 0 else [],
+                 'native': [{'name': n, 'arity': a, 'style': style, 'kind': kd, 'yield': ['false', 'true', 'mixed'][(k + a) % 3], 'form': FORMS[(k + a) % len(FORMS)], 'raise': None}
+                            for n, a in sub]}
+            if k % 2:
+                c['twins'] = [['t1', 2, k % 3], ['t8', 1, (k + 1) % 3]]
+            L.append(c)
     return L + mixed_corpus()
 
 def nontrivial(case, io):
@@ -1025,8 +1136,8 @@ def describe(case):
                 ops.append({'register_function': dict({k: v for k, v in sp.items() if k != 'rows'}, rows=ast_io.program_text(spec_fact_clauses(sp)))})
             else:
                 ops.append({'assert_fact': ast_io.program_text([[op[1], op[2], ['true']]])})
-        return {'operations': ops, 'queries_asked_after_operations': case['rounds'], 'queries': [qtext(q) for q in case['queries']]}
-    return {'program': ast_io.program_text(case['clauses']), 'python_predicates': case['native'],
+        return {'operations': ops, 'queries_asked_after_operations': case['rounds'], 'queries': [qtext(q) for q in case['queries']], 'rules_written_in_python_too': case.get('twins')}
+    return {'program': ast_io.program_text(case['clauses']), 'python_predicates': case['native'], 'rules_written_in_python_too': case.get('twins'),
             'dynamic_facts': [[n, [terms.show_term(t) for t in ts]] for n, ts in case['dyn']],
             'queries': [qtext(q) for q in case['queries']]}
 
